@@ -3,28 +3,33 @@
 The agent sees only the property record and its own scratch worktree (nothing from /verif)."""
 import json, sys
 pid = sys.argv[1]
+tag = sys.argv[2] if len(sys.argv) > 2 else ""      # e.g. "r2": second round, own worktree /tmp/wt/<pid>r2
+avoid = sys.argv[3] if len(sys.argv) > 3 else ""    # sites already used by earlier independent attempts
 rec = None
 for l in open('/verif/properties.jsonl'):
     p = json.loads(l)
     if p['id'] == pid:
         rec = p
+wid = pid + tag
 print(f"""You are testing how robust a Python library's correctness properties are against subtle regressions.
 
-Repository: a git worktree of PennyLane (quantum programming framework) at /tmp/wt/{pid} . Work ONLY inside that directory and /tmp/wt-out/{pid}/ . Never touch /repo or /verif, never run git commit, never create other worktrees. Use /venv/bin/python (Python 3.12, all dependencies installed; running it with the worktree as cwd imports the worktree's `pennylane` package - verify with `cd /tmp/wt/{pid} && /venv/bin/python -c "import pennylane; print(pennylane.__file__)"`). There is no network.
+Repository: a git worktree of PennyLane (quantum programming framework) at /tmp/wt/{wid} . Work ONLY inside that directory and /tmp/wt-out/{wid}/ . Never touch /repo or /verif, never run git commit, never create other worktrees. Use /venv/bin/python (Python 3.12, all dependencies installed; running it with the worktree as cwd imports the worktree's `pennylane` package - verify with `cd /tmp/wt/{wid} && /venv/bin/python -c "import pennylane; print(pennylane.__file__)"`). There is no network.
 
 Here is one semantic property that the library is supposed to satisfy (JSON record):
 
 {json.dumps(rec, indent=1)}
 
-Task: produce up to TWO independent, realistic changes to the library source under /tmp/wt/{pid}/pennylane/ (each a small patch of the kind a developer could plausibly make by mistake during a refactor or "optimisation"; at different code sites / mechanisms) such that each change, applied alone:
+Task: produce up to TWO independent, realistic changes to the library source under /tmp/wt/{wid}/pennylane/ (each a small patch of the kind a developer could plausibly make by mistake during a refactor or "optimisation"; at different code sites / mechanisms) such that each change, applied alone:
  1. BREAKS the property above (observable through the public API),
- 2. still imports/compiles, and the existing pinned test-suite still passes. The pinned command is `cd /tmp/wt/{pid} && /venv/bin/python -m pytest -ra -q -p no:cacheprovider --timeout=900 --continue-on-collection-errors` (about 4-5 minutes; on the UNCHANGED tree 257 documentation examples pass and 286 items fail for environmental reasons - what matters is that the set of passing tests does not shrink: still 257 passed). Run it once per final patch and record the passed/failed counts,
+ 2. still imports/compiles, and the existing pinned test-suite still passes. The pinned command is `cd /tmp/wt/{wid} && /venv/bin/python -m pytest -ra -q -p no:cacheprovider --timeout=900 --continue-on-collection-errors` (about 4-5 minutes; on the UNCHANGED tree 257 documentation examples pass and 286 items fail for environmental reasons - what matters is that the set of passing tests does not shrink: still 257 passed). Run it once per final patch and record the passed/failed counts,
  3. needs something SPECIFIC to manifest - a particular multi-step sequence of operations, an unusual input, an exception at a particular point, a particular interleaving of threads, or two cooperating sites that each look fine alone - i.e. NOT something that ordinary use or a trivial smoke test would expose at once.
 
-For each change write into /tmp/wt-out/{pid}/ :
-  - patch1.diff (and patch2.diff): output of `git -C /tmp/wt/{pid} diff` for that change alone (apply-able with `git apply` on a clean tree),
+For each change write into /tmp/wt-out/{wid}/ :
+  - patch1.diff (and patch2.diff): output of `git -C /tmp/wt/{wid} diff` for that change alone (apply-able with `git apply` on a clean tree),
   - demo1.py (and demo2.py): a small standalone program run as `cd <tree> && /venv/bin/python demo1.py`-style (it must locate pennylane from the current working directory) that exits with status 0 on the UNCHANGED tree and a non-zero status (assertion failure) on the changed tree, demonstrating the property violation through public behaviour,
   - notes1.md (and notes2.md): 5-10 lines: what the change is, why it breaks the property, what it needs in order to manifest, the exact commands you ran and their results (demo on clean tree, demo on patched tree, pinned-suite counts).
-Verify everything yourself: demo passes on the clean tree, fails with the patch. NEVER use `git stash` (the stash is shared by all worktrees of the repository and other agents work in sibling worktrees): save with `git diff > /tmp/wt-out/{pid}/patchN.diff`, clean with `git checkout -- .`, re-apply with `git apply`, and re-check `git diff` before trusting any clean/patched run. Leave the worktree CLEAN (git checkout -- .) when you finish; the patches live only in /tmp/wt-out/{pid}/.
+Verify everything yourself: demo passes on the clean tree, fails with the patch. NEVER use `git stash` (the stash is shared by all worktrees of the repository and other agents work in sibling worktrees): save with `git diff > /tmp/wt-out/{wid}/patchN.diff`, clean with `git checkout -- .`, re-apply with `git apply`, and re-check `git diff` before trusting any clean/patched run. Leave the worktree CLEAN (git checkout -- .) when you finish; the patches live only in /tmp/wt-out/{wid}/.
+
+{("Earlier independent attempts already produced changes at these sites; produce changes at DIFFERENT sites and with different mechanisms: " + avoid) if avoid else ""}
 
 Keep your final answer short: for each patch one line saying which file/function it touches and whether all three verifications succeeded.""")
